@@ -269,6 +269,7 @@ pub struct OptionsTemplate {
     #[nom(
         PreExec = "let combined_count = usize::from(scope_field_count.saturating_add(
                        field_count.checked_sub(scope_field_count).unwrap_or(field_count)));",
+        ErrorIf = "combined_count.saturating_mul(4) > i.len()",
         Parse = "count(TemplateField::parse, combined_count)"
     )]
     pub fields: Vec<TemplateField>,
